@@ -127,6 +127,7 @@ def check_C09(report, tier, seed):
     import suites_engine as S
     engine_check("C09", report, tier, seed)
     S.receive_maximum_resume_family(report, "C09")
+    S.slow_start_family(report, "C09")
 def check_C10(report, tier, seed): engine_check("C10", report, tier, seed)
 def check_C11(report, tier, seed):
     import suites_engine as S
